@@ -232,6 +232,13 @@ impl Session {
         } else {
             None
         };
+        // remove destroys exactly the targeted subtree (C05; seed C05k): every node of it, entry nodes included
+        let doomed: Vec<Node> = if w[0] == "remove" && !self.xot.is_removed(n(self, 1)) {
+            let a = n(self, 1);
+            self.xot.all_descendants(a).collect()
+        } else {
+            vec![]
+        };
         let resp: String = match w[0] {
             "reset" => "ok".into(),
             "cons" => {
@@ -401,6 +408,13 @@ impl Session {
                 if got != want {
                     sink.fail("C11", &format!("C11:{}:entry-does-not-read-back", w[0]), &format!("{} answered {} but the view reads {:?} for that key (expected {:?})", req, resp, got, want), &self.history);
                 }
+            }
+        }
+        if !doomed.is_empty() && resp == "ok" {
+            sink.stat("oracle.remove-destroys-subtree");
+            let survivors = doomed.iter().filter(|d| !self.xot.is_removed(**d)).count();
+            if survivors > 0 {
+                sink.fail("C05", "C05:remove:node-of-the-removed-subtree-survives", &format!("{} answered ok but {} of the {} nodes of the subtree (attribute and namespace nodes included) are still live", req, survivors, doomed.len()), &self.history);
             }
         }
         if let Some(before) = noop_before {
